@@ -104,7 +104,7 @@ def main(tier, replay=None):
                [mapgen.random_history(rng, kind, len(keys), 3, nops(), init_pairs=rng.choice([0, 3])) for _ in range(nexec)],
                "random/" + kind)
         # key and value types of different sizes (slot / node layouts must give each its own size(type) bytes)
-        for kt, vt in (("Int", "Probe"), ("Probe", "Int"), ("String", "Probe")):
+        for kt, vt in (("Int", "Probe"), ("Probe", "Int"), ("String", "Probe"), ("Int", "Odd12"), ("Odd12", "Probe")):
             ks = [b"k%02d" % i for i in range(16)] if kt == "String" else keys
             cm.run(mapgen.header(kt, vt, ks, [7, 8, 9]),
                    [mapgen.random_history(rng, kind, len(ks), 3, nops(), init_pairs=rng.choice([0, 3])) for _ in range(max(4, nexec // 4))],
